@@ -69,7 +69,7 @@ func init() {
 	core.Register(&core.Prop{
 		ID:    "C02",
 		Title: "Comparator-ordered containers enumerate and navigate in sorted order",
-		Cases: func(tier string) int { return tierN(tier, 6000, 300000) },
+		Cases: func(tier string) int { return tierN(tier, 24000, 480000) },
 		Run:   runC02,
 		Rule: "the C01 workload families on RedBlackTree, AVLTree, BTree, TreeMap, TreeBidiMap and random Add/Remove histories on TreeSet, with natural, reversed and coarsened comparators over int and string keys. " +
 			"After every call: Keys() (TreeSet/TreeBidiMap Values() under the value comparator) strictly ascending and equal to the sorted model, a full iterator walk equal to it, every extreme accessor (Left/Right, Min/Max, LeftKey/RightKey) against the model, " +
